@@ -121,6 +121,22 @@ func (env *CEnv) eval(n *Node) cval {
 				if av, ok := env.st.Cells[x.Cell].(*ArrayV); ok && x.Lo+int(k) < x.Hi {
 					return cval{V: av.E[x.Lo+int(k)]}
 				}
+			} else if av, ok := env.st.Cells[x.Cell].(*ArrayV); ok && x.Hi > x.Lo && x.Hi-x.Lo <= 16 {
+				// a concrete list under a symbolic (quantified) index: the elements merged
+				// into one value by cases on the index (the last element stands for "beyond")
+				v := av.E[x.Hi-1]
+				for k := x.Hi - 2; k >= x.Lo; k-- {
+					v = mergeByCase(env.ex, env.scratchState(), Eq(i, IntLit(int64(k-x.Lo))), av.E[k], v)
+				}
+				var et types.Type
+				if sl, ok := b.T.(*types.Slice); ok {
+					et = sl.Elem()
+				} else if b.T != nil {
+					if sl, ok := b.T.Underlying().(*types.Slice); ok {
+						et = sl.Elem()
+					}
+				}
+				return cval{V: v, T: et}
 			}
 		case *TupleV:
 			if k, ok := i.IntVal(); ok && int(k) < len(x.V) {
@@ -228,6 +244,20 @@ func (env *CEnv) ident(name string) cval {
 	}
 	cfail("unknown identifier %s", name)
 	return cval{}
+}
+
+// mergeByCase is iteValue that also merges structs field by field.
+func mergeByCase(ex *Executor, st *State, c *Term, a, b Value) Value {
+	sa, aok := a.(*StructV)
+	sb, bok := b.(*StructV)
+	if aok && bok && len(sa.F) == len(sb.F) {
+		out := &StructV{T: sa.T}
+		for i := range sa.F {
+			out.F = append(out.F, mergeByCase(ex, st, c, sa.F[i], sb.F[i]))
+		}
+		return out
+	}
+	return ex.iteValue(st, c, a, b)
 }
 
 func resultType(fn *ssa.Function) types.Type {
@@ -1217,6 +1247,9 @@ func isSecretSource(t *Term, forLog bool) bool {
 	case strings.HasPrefix(op, "body!"):
 		// the raw request body (io.ReadAll): it carries the submitted password,
 		// codes and tokens, whatever member they sit in
+		return forLog
+	case op == "f!url.URL.RawQuery", op == "f!http.Request.RequestURI":
+		// the query string carries the mailed token on the GET routes
 		return forLog
 	case op == "url_string":
 		// the request URL carries the mailed token on GET routes (confirm,
